@@ -341,6 +341,16 @@ func mergeInputs(r *rng.R) []mergeInput {
 			}
 		}
 	}
+	if r.Chance(1, 5) {
+		// one routing pair for all inputs, its origin ten characters long: the header field shows it in full only
+		// under BypassOriginValidation, so inputs of one pair render it differently depending on their options
+		// (the validator model under options knows no rule about the origin's length: the variant is marked as one it does not see)
+		for i := range ins {
+			ins[i].f.Header.ImmediateOrigin, ins[i].f.Header.ImmediateDestination = "1234567890", g.Header.ImmediateDestination
+			_ = ins[i].f.Create()
+			ins[i].variant += "+origin10"
+		}
+	}
 	var out []mergeInput
 	for _, in := range ins {
 		if !dropIAT(in.f) {
@@ -476,6 +486,18 @@ func runMerge(c spec) (res mergeRun) {
 		return
 	}
 	fmt.Fprintf(&il, " | %d", len(outs))
+	if cond.MaxLines == 0 && cond.MaxDollarAmount == 0 {
+		// no limit binds: all inputs of one origin / destination pair are merged into exactly one file
+		pairs := map[string]int{}
+		for _, o := range outs {
+			pairs[o.Header.ImmediateOrigin+"\x00"+o.Header.ImmediateDestination]++
+		}
+		for k, n := range pairs {
+			if n > 1 {
+				add("merge:opts5:pair-split", fmt.Sprintf("without limits MergeFilesWith returns %d files for the routing pair %q (inputs: %s)", n, strings.ReplaceAll(k, "\x00", " > "), label))
+			}
+		}
+	}
 	for _, o := range outs {
 		var verr error
 		if p := guard(func() { verr = gen.ValidAll(o) }); p != nil {
